@@ -15,3 +15,20 @@ Theorem C20_built_files_pos_sized : forall W chunks root sz,
   Forall nonempty chunks -> build_file W chunks = Ok (root, sz) -> pos_sized root = true.
 Proof. exact build_file_pos. Qed.
 Print Assumptions C20_built_files_pos_sized.
+
+(* ---- sharded directories ---- *)
+From UV Require Import Hamt.Read Hamt.IterOrder.
+Local Open Scope N_scope.
+
+(* for EVERY block DAG (well-formed or hostile) and every availability of blocks: the storage requests of a full
+   iteration of a sharded directory, in order, are the depth-first walk over the child-shard links in link order *)
+Theorem C20_sharded_iteration_order : forall fault b pf rp,
+  loads_of (iter_blk fault b pf rp) = shard_walk fault b pf.
+Proof. exact iterate_requests_walk. Qed.
+Print Assumptions C20_sharded_iteration_order.
+
+(* length() / preload: a prefix of the same walk, all of it when a count is returned *)
+Theorem C20_sharded_length_order : forall fault b pf, exists rest,
+  shard_walk fault b pf = snd (length_blk fault b pf) ++ rest /\ (forall m, fst (length_blk fault b pf) = Ok m -> rest = []).
+Proof. exact length_requests_walk_prefix. Qed.
+Print Assumptions C20_sharded_length_order.
